@@ -79,26 +79,34 @@ def isolated_batch(texts, per_input=8.0):
     start = 0
     while start < len(texts):
         ch = subprocess.Popen(['/venv/bin/python', '-u', os.path.join(core.VERIF, 'harness', 'c01_child.py'),
-                               core.lib_path(), tf, core.VERIF, str(start)], stdout=subprocess.PIPE, stderr=subprocess.DEVNULL,
-                              universal_newlines=True)
+                               core.lib_path(), tf, core.VERIF, str(start)], stdout=subprocess.PIPE, stderr=subprocess.DEVNULL)
+        fd = ch.stdout.fileno()
+        buf = b''
         cur = None
         try:
             while True:
-                r, _, _ = select.select([ch.stdout], [], [], per_input if cur is not None else 20.0)
-                if not r:
-                    if cur is None:
-                        raise core.MachineryError('C01 child process did not start')
-                    res[cur] = (None, False, True)       # this input did not come back
-                    start = cur + 1
-                    break
-                ln = ch.stdout.readline()
-                if not ln:
-                    if cur is not None and res[cur] is None:
-                        res[cur] = (None, True, False)   # the child died on this input
+                # lines are taken from our own buffer first: waiting on the pipe while complete lines are already here would
+                # blame an input that had long returned
+                if b'\n' not in buf:
+                    r, _, _ = select.select([fd], [], [], per_input if cur is not None else 30.0)
+                    if not r:
+                        if cur is None:
+                            raise core.MachineryError('C01 child process did not start')
+                        res[cur] = (None, False, True)       # this input did not come back
                         start = cur + 1
-                    else:
-                        start = len(texts)
-                    break
+                        break
+                    chunk = os.read(fd, 1 << 16)
+                    if not chunk:
+                        if cur is not None and res[cur] is None:
+                            res[cur] = (None, True, False)   # the child died on this input
+                            start = cur + 1
+                        else:
+                            start = len(texts)
+                        break
+                    buf += chunk
+                    continue
+                ln, _, buf = buf.partition(b'\n')
+                ln = ln.decode('utf-8', 'replace')
                 if ln.startswith('BEGIN '):
                     cur = int(ln.split()[1])
                 elif ln.startswith('END '):
@@ -410,6 +418,14 @@ def main(tier, replay=None):
         texts += ['(' * n + '1' + ')' * n, '(' * n + '1', '-' * n + '1', '1+' * n + '1', '1' * n, 'A' * n + '1',
                   'SUM(' + ','.join(['1'] * n) + ')', '{' + ';'.join(['1'] * n) + '}', 'SUM(' * n + '1' + ')' * n,
                   '"a"&' * n + '"b"', '#' * n, '1' + '%' * n, 'IF(' * n + '1']
+    # astronomically large arguments in every position of every documented function, and as literals: a dozen characters of
+    # input must not buy hours of computation
+    huge = ['1000000000', '999999999999', '10^30', '-1000000000', '2^62']
+    for name in names:
+        for h in (huge if not quick else huge[:1] + [huge[(len(name)) % 4 + 1]]):
+            texts += ['%s(%s)' % (name, h), '%s(2,%s)' % (name, h), '%s(%s,2)' % (name, h), '%s(2,3,%s)' % (name, h)]
+    texts += ['9^999999999', '2^99999999', '10^400', '7^77777', '99^9999999', '1^999999999999', '0^0', '2^3^999999999',
+              '999999999%', '10^30*10^30', '"a"&10^400', '-9^999999999', '(2^99999999)=1']
     # results longer than any limit a spreadsheet has for a cell
     texts += ['"' + 'a' * 33000 + '"', '"' + 'ab' * 20000 + '"&"' + 'cd' * 20000 + '"', "'" + 'x y' * 30000 + "'",
               'CONCATENATE("' + 'q' * 20000 + '","' + 'r' * 20000 + '")', '"' + 'é' * 40000 + '"&1']
